@@ -49,10 +49,16 @@ def eye_poly(D, P, n):
 
 def diag_poly(s, n, m):
     D, P, k = s.shape
-    out = numpy.zeros((D, P, n, m))
+    out = numpy.zeros((D, P, n, m), dtype=s.dtype)
     for i in range(k):
         out[:, :, i, i] = s[:, :, i]
     return out
+
+
+def carr_to_data(a, D):
+    """complex instance: [shape, v: list of series of Gaussian rationals] -> complex ndarray (D,) + shape"""
+    vals = numpy.array([[complex(to_num(c)) for c in s_] for s_ in a["v"]])
+    return vals.T.reshape((D,) + tuple(a["shape"]))
 
 
 def resid(rep, sig, det, name, a, b, scale):
@@ -82,6 +88,15 @@ def run(rep, tier, seed):
     for r in res.records:
         r["D"] = 2; r["zo"] = 0
     recs += [r for r in res.records if r["kind"] in ("eig2", "qr2", "chol2")]
+    # complex eigenproblems (Gaussian-rational instance of the same modules): complex higher coefficients on a real base
+    # matrix with a real spectrum, and complex already at order 0
+    res = tlc_ok(run_tlc("MC_CFactor", CFG % (2, 3 if q else 6, 0), workers=4, timeout=600), "MC_CFactor D=2")
+    rep.add_tlc(res, "MC_CFactor_D2")
+    for r in res.records:
+        r["D"] = 2; r["zo"] = 0
+    if {r["kind"] for r in res.records} != {"eig2c", "eig2cc"}:
+        raise Machinery("MC_CFactor: complex eigenproblems not generated")
+    recs += res.records
     groups = {}
     for r in recs:
         groups.setdefault((r["kind"], r["D"], r["zo"]), []).append(r)
@@ -91,7 +106,8 @@ def run(rep, tier, seed):
             + [[rs[i], rs[(i + 1 + len(rs) // 2) % len(rs)]] for i in range(0, len(rs), 2) if len(rs) > 3]
         for pack in packs:
             P = len(pack)
-            get = lambda name: numpy.stack([arr_to_data(r["inst"][name], D) for r in pack], axis=1)
+            a2d = carr_to_data if kind in ("eig2c", "eig2cc") else arr_to_data
+            get = lambda name: numpy.stack([a2d(r["inst"][name], D) for r in pack], axis=1)
             A = get("A")
             Au = UTPM(A.copy())
             sc = 1 + abs(A).max()
@@ -183,10 +199,10 @@ def run(rep, tier, seed):
                     resid(rep, sig, det, "U diag(s) V^T = A", tdot(Ud, tdot(diag_poly(sd, 3, 2), tT(Vd))), A, sc)
                     resid(rep, sig, det, "U^T U = I", tdot(tT(Ud), Ud), eye_poly(D, P, 3), 1.0)
                     resid(rep, sig, det, "V^T V = I", tdot(tT(Vd), Vd), eye_poly(D, P, 2), 1.0)
-                elif kind == "eig2":
+                elif kind in ("eig2", "eig2c", "eig2cc"):
                     lams = get("lam")
                     l, X = algopy.eig(Au)
-                    ld, Xd = numpy.real_if_close(l.data), numpy.real_if_close(X.data)
+                    ld, Xd = (l.data, X.data) if kind != "eig2" else (numpy.real_if_close(l.data), numpy.real_if_close(X.data))
                     for p in range(P):
                         order = numpy.argsort(ld[0, p])
                         so = numpy.argsort(lams[0, p])
